@@ -306,6 +306,9 @@ def make_pilot(session, resource, schema, size, uid='pilot.0000'):
     return pilot
 
 
+_EXPANDED = dict()
+
+
 def expand_rcfg(rcfg, pilot):
     '''
     what `_start_pilot_bulk` does to the resolved config before it calls
@@ -324,9 +327,15 @@ def expand_rcfg(rcfg, pilot):
             expand['pd.%s' % k.upper()] = v
             expand['pd.%s' % k.lower()] = v
 
-    for k in rcfg:
-        if isinstance(rcfg[k], str):
-            rcfg[k] = rcfg[k] % expand
+    # once per bulk, as in `_start_pilot_bulk` (all pilots of a bulk share the
+    # resolved config; a second expansion of already expanded strings would be
+    # the harness's doing, not the launcher's)
+    if id(rcfg) not in _EXPANDED:
+        for k in rcfg:
+            if isinstance(rcfg[k], str):
+                rcfg[k] = rcfg[k] % expand
+        _EXPANDED.clear()               # one config object at a time is live
+        _EXPANDED[id(rcfg)] = rcfg      # (the reference keeps the id unique)
 
     return expand
 
@@ -388,6 +397,10 @@ def prepare(session, lc, resource, schema, rcfg, size, env_smt=None):
 #
 # Part 1: one cell of the matrix
 #
+ENDPOINT_KEYS = ('job_manager_endpoint', 'filesystem_endpoint',
+                 'job_manager_hop')
+
+
 def check_cell(session, lc, broken, raw, resource, schema, res):
     '''
     returns (summary string, resolved-ok flag)
@@ -439,6 +452,37 @@ def check_cell(session, lc, broken, raw, resource, schema, res):
 
     res.count('cells_resolved')
     out = list()
+
+    # -- the resolved config is THIS platform's entry with THIS schema laid
+    #    over it (computed here from the shipped json, independently of the
+    #    session: a stale or shared cache would hand out another platform's
+    #    settings, which all exist and would pass every lookup below)
+    entry = raw[resource]
+    used  = schema or entry.get('default_schema')
+    exp   = json.loads(json.dumps({k: v for k, v in entry.items()
+                                   if k != 'schemas'}))
+    if used and isinstance((entry.get('schemas') or {}).get(used), dict):
+        def overlay(a, b):
+            for k, v in b.items():
+                if isinstance(v, dict) and isinstance(a.get(k), dict):
+                    overlay(a[k], v)
+                else:
+                    a[k] = json.loads(json.dumps(v))
+        overlay(exp, entry['schemas'][used])
+    got  = json.loads(json.dumps(rcfg.as_dict(), default=str))
+    diff = dict()
+    for k, v in exp.items():
+        res.count('resolved_values_compared')
+        if k in ENDPOINT_KEYS and got.get(k) != v:
+            continue               # replaced when started inside a batch job
+        if got.get(k) != v:
+            diff[k] = {'shipped': v, 'resolved': got.get(k)}
+    if got.get('label') != resource:
+        diff['label'] = {'shipped': resource, 'resolved': got.get('label')}
+    if diff:
+        bad('resolved-config-differs-from-shipped',
+            'get_resource_config returns values which are not those of the '
+            'shipped entry + schema %r: %s' % (used, diff), diff=diff)
 
     # -- resource manager ------------------------------------------------------
     rm_name = rcfg.resource_manager
@@ -682,6 +726,39 @@ def run_sizing(session, lc, case, res):
     kinds = classify(case, exp)
     ctx   = {'part': 'sizing', 'case': case, 'expected': exp}
 
+    def rcfg_view():
+        return json.loads(json.dumps(
+               {'cores_per_node'     : rcfg.cores_per_node,
+                'gpus_per_node'      : rcfg.gpus_per_node,
+                'system_architecture': dict(rcfg.system_architecture or {}),
+                'agent_config'       : rcfg.get('agent_config'),
+                'resource_manager'   : rcfg.get('resource_manager')},
+               default=str))
+
+    # earlier pilots of the same bulk: prepared with the very same resolved
+    # config object, as `_start_pilot_bulk` does
+    view0 = rcfg_view()
+    for bsize in case.get('bulk_before') or []:
+        res.count('bulk_predecessors_prepared')
+        try:
+            prepare(session, lc, resource, schema, rcfg, dict(bsize),
+                    case['env_smt'])
+        except Exception:
+            pass
+    if case.get('bulk_before'):
+        res.count('sizing_in_bulk_checked')
+        view1 = rcfg_view()
+        if view1 != view0:
+            diff = {k: (view0[k], view1[k]) for k in view0
+                    if view0[k] != view1[k]}
+            res.violation('resource-config-changed-by-earlier-pilot',
+                          '%s/%s: preparing %d earlier pilot(s) of the bulk '
+                          'changed the resolved config the next pilot is '
+                          'sized with: %s' % (resource, schema,
+                                              len(case['bulk_before']), diff),
+                          ctx)
+            return kinds
+
     try:
         jd, acfg, told = prepare(session, lc, resource, schema, rcfg,
                                  dict(case['size']), case['env_smt'])
@@ -866,8 +943,19 @@ def gen_case(rng, platforms):
         elif rng.random() < 0.15:
             size['gpus'] = rng.randint(1, 8)
 
+    # the launcher prepares all pilots of a bulk (same platform, same schema)
+    # with ONE resolved resource config: some pilots come first
+    bulk_before = list()
+    if rng.random() < 0.35:
+        for _ in range(rng.randint(1, 3)):
+            if rng.random() < 0.5:
+                bulk_before.append({'nodes': rng.choice([1, 2, 5])})
+            else:
+                bulk_before.append({'cores': max(1, rng.randint(1, 4) * avail_c
+                                                 + rng.choice([-1, 0, 1]))})
+
     return {'resource': resource, 'schema': schema, 'override': override,
-            'env_smt': env_smt, 'size': size}
+            'env_smt': env_smt, 'size': size, 'bulk_before': bulk_before}
 
 
 # ------------------------------------------------------------------------------
